@@ -68,6 +68,21 @@ def find(pid, oid, cfg, repo):
     return None
 
 
+def sweep(pid, cfg, repo):
+    """thorough tier: run every stored candidate input of the property against the real crate"""
+    ws = cfg.get("witness", [])
+    if not ws:
+        return []
+    err = build(repo)
+    if err:
+        raise RuntimeError("replay build failed: " + err)
+    out = []
+    for w in ws:
+        for cand in w["candidates"]:
+            out.append(run_one(w["kind"], cand))
+    return out
+
+
 def replay_file(path, repo):
     with open(path) as f:
         doc = json.load(f)
